@@ -8,6 +8,7 @@
   conversion of the right operand (whose soundness is C04's subject).
 -/
 import Proofs.SizeOf
+import Proofs.GraphHist
 import Proofs.Monad
 import Proofs.ConvertVal
 
@@ -135,5 +136,42 @@ theorem same_unit_order {s : St} {a b : Qty Rat} (hu : a.unit = b.unit) (hz : 0 
   · constructor
     · intro h; exact mul_lt_mul_of_pos_right h hz
     · intro h; exact lt_of_mul_lt_mul_right h hz.le
+
+/-! ### sums and differences through a directly settled conversion: unconditional -/
+
+/-- `a + b` where `b` is brought into `a`'s unit by a directly found path: the SI value of the result
+    is the sum of the SI values — in every state reached by unit operations, size-consistent
+    declarations and directly settled conversions (no hypothesis about the conversion). -/
+theorem add_direct_exact (hσ : ∀ k, σ k ≠ 0) {c c' : Conv Rat} (hr : Reach σ c) {a b q : Qty Rat}
+    (ha : a.unit < c.st.units.length) (hb : b.unit < c.st.units.length)
+    (h : CM.exec (Qty.add a b) c = (.ok q, c')) :
+    q.unit = a.unit ∧
+    ∃ (direct : List (Hop Rat)) (c2 : Conv Rat),
+      CM.exec (findPath b.unit a.unit)
+        { c with st := ((c.st.unprefixedUnit b.unit).1.unprefixedUnit a.unit).1 } = (.ok direct, c2) ∧
+      (direct ≠ [] → si σ c.st q = si σ c.st a + si σ c.st b) := by
+  obtain ⟨hu, b', c1, hcv, hv⟩ := add_value h
+  obtain ⟨hbu, d, c2, hfp, hd⟩ := reach_convert_exact hσ hr hb ha hcv
+  refine ⟨hu, d, c2, hfp, ?_⟩
+  intro hne
+  have := hd hne
+  unfold si
+  rw [hu, hv, add_mul, this]
+
+theorem sub_direct_exact (hσ : ∀ k, σ k ≠ 0) {c c' : Conv Rat} (hr : Reach σ c) {a b q : Qty Rat}
+    (ha : a.unit < c.st.units.length) (hb : b.unit < c.st.units.length)
+    (h : CM.exec (Qty.sub a b) c = (.ok q, c')) :
+    q.unit = a.unit ∧
+    ∃ (direct : List (Hop Rat)) (c2 : Conv Rat),
+      CM.exec (findPath b.unit a.unit)
+        { c with st := ((c.st.unprefixedUnit b.unit).1.unprefixedUnit a.unit).1 } = (.ok direct, c2) ∧
+      (direct ≠ [] → si σ c.st q = si σ c.st a - si σ c.st b) := by
+  obtain ⟨hu, b', c1, hcv, hv⟩ := sub_value h
+  obtain ⟨hbu, d, c2, hfp, hd⟩ := reach_convert_exact hσ hr hb ha hcv
+  refine ⟨hu, d, c2, hfp, ?_⟩
+  intro hne
+  have := hd hne
+  unfold si
+  rw [hu, hv, sub_mul, this]
 
 end Measured.C06
